@@ -192,6 +192,7 @@ class TabularScriptEnv(gym.Env):
         self.script = [tuple(s) for s in script]
         self.rng = np.random.default_rng(seed)
         self.self_loop_p = 0.0
+        self.fixed_start_p = 0.0
         self.name = name
         self.episode = -1
         self.ended = True
@@ -207,6 +208,8 @@ class TabularScriptEnv(gym.Env):
         self.ended = False
         self.ep_return = 0.0
         self.state = int(self.rng.integers(self.nS))
+        if self.fixed_start_p and self.rng.random() < self.fixed_start_p:
+            self.state = 0  # a start state that episodes keep returning to
         self.trace.ev("reset", env=self.name, seed=seed, obs=self.state)
         return self.state, {}
 
